@@ -501,6 +501,89 @@ def run(chk):
     _coercefirst_rule(chk, prog)
     _ringwalk_rule(chk, prog)
     _runq_rule(chk, prog)
+    _tailwriters_rule(chk, prog)
+    _pendingmark_rule(chk, prog)
+
+
+# who may append at the TAIL of a channel's queues; everything that hands an element back (a value bounced by a reader
+# that moved on, a registration looked at and kept) re-inserts at the head, or later elements overtake it
+TAIL_WRITERS = {
+    ("items", "janet_channel_push_with_lock"): "the give itself: a new value goes behind the queued ones",
+    ("items", "janet_chanat_unmarshal"): "rebuilds the queue in its marshalled order",
+    ("write_pending", "janet_channel_push_with_lock"): "a new blocked giver queues behind earlier ones",
+    ("read_pending", "janet_channel_pop_with_lock"): "a new blocked taker queues behind earlier ones",
+}
+
+
+def _tailwriters_rule(chk, prog):
+    rule = "C06-TAILWRITERS"
+    chk.rule(rule, "only a new give / a new waiter / the unmarshaller appends at the tail of a channel's queues; code that returns an element re-inserts it at the head")
+    n = 0
+    for fn in prog.tus["ev.c"].funcs.values():
+        for c in fn.calls("janet_q_push"):
+            q = [y for y in c.args[0].walk() if y.k == "mem" and y.rec == "JanetChannel" and y.field in ("items", "read_pending", "write_pending")]
+            if not q:
+                continue
+            n += 1
+            chk.instance(rule)
+            chk.analysed(fn)
+            key = (q[0].field, fn.name)
+            if key in TAIL_WRITERS:
+                chk.ok(rule, "%s appends to %s: %s" % (fn.name, q[0].field, TAIL_WRITERS[key]))
+            else:
+                chk.violation(rule, "ev.c", fn.name, "tail:" + q[0].field, c.loc,
+                              "`%s` appends to the tail of a channel's %s outside the operations that add a NEW element: an element that "
+                              "is being returned (a value bounced by a reader that moved on) must go back to the head, or values given "
+                              "later overtake it and a single giver's order is not kept" % (c.text()[:60], q[0].field))
+    chk.floor(rule, 4, n)
+
+
+def _pendingmark_rule(chk, prog):
+    """give, take and close decide whether a queued registration is stale by reading entry.fiber->sched_id, i.e. they
+    dereference the fiber of every entry, stale or not.  The channel's mark callback therefore has to keep the fiber
+    of EVERY entry alive: marking that depends on the entry's own fields lets the collector free a fiber whose
+    registration is still in the ring, and the staleness test then reads freed (possibly reused) memory."""
+    rule = "C06-PENDINGMARK"
+    chk.rule(rule, "the channel mark callback marks the fiber of every pending entry unconditionally (the staleness test itself dereferences it)")
+    tu = prog.tus["ev.c"]
+    derefs = 0
+    for fn in tu.funcs.values():
+        for x in fn.nodes:
+            if x.k == "mem" and x.field == "sched_id" and x.rec == "JanetFiber":
+                b = strip_casts(x.kids[0])
+                if b.k == "mem" and b.field == "fiber" and b.rec == "JanetChannelPending":
+                    derefs += 1
+    if derefs < 2:
+        raise AnalysisBroken("no code dereferences a pending entry's fiber to test staleness any more: re-derive the rule")
+    n = 0
+    for fn in tu.funcs.values():
+        marks = [c for c in fn.calls("janet_mark") if any(y.k == "mem" and y.field == "fiber" and y.rec == "JanetChannelPending" for y in c.walk())]
+        if not marks:
+            continue
+        chk.analysed(fn)
+        IN, T = flow.condition_facts(fn)
+        res = {}
+        for x, S in flow.states_at(fn, IN, T):
+            if x in marks:
+                bad = None
+                for ps in S:
+                    for (op, l, r, toks, ln, rn) in ps:
+                        for e in (ln, rn):
+                            if e is not None and any(y.k == "mem" and y.rec in ("JanetChannelPending", "JanetFiber") for y in e.walk()):
+                                bad = e
+                res[id(x)] = bad
+        for c in marks:
+            n += 1
+            chk.instance(rule)
+            bad = res.get(id(c), "unreached")
+            if bad is None:
+                chk.ok(rule, "%s: `%s` does not depend on the entry" % (fn.name, c.text()[:50]))
+            else:
+                chk.violation(rule, "ev.c", fn.name, "conditional-mark", c.loc,
+                              "`%s` is reached only under a condition on the entry itself (`%s`): an entry that is skipped keeps a "
+                              "pointer to a fiber the collector may free, and give / take / close read entry.fiber->sched_id of every "
+                              "entry to decide staleness" % (c.text()[:50], bad.text()[:60] if bad != "unreached" else "unreachable"))
+    chk.floor(rule, 1, n)
 
 
 def _ringwalk_rule(chk, prog):
